@@ -5,7 +5,7 @@ package sql
 // reach (its contracts cover the quote scanners). The real MaskStringLiterals / UnmaskStringLiterals are therefore
 // run exhaustively over
 //   all sequences of 0..5 (quick) / 0..6 (thorough) tokens from
-//   { ' , " , \ , $ , $$ , $t$ , E , a , _ , 1 , space , -- , newline }
+//   { ' , " , \ , $ , $$ , $t$ , E , a , _ , 1 , space , -- , newline , "a" , "A" , 'x' }
 // and the round trip is compared with the input. Texts that themselves contain a placeholder look-alike
 // (__STR_n__ / __IDENT_n__) are NOT in this universe: they are the open known finding
 // mask-placeholder-lookalike (demonstrated separately).
@@ -16,7 +16,7 @@ import (
 )
 
 func TestVerifBoundedMaskRoundTrip(t *testing.T) {
-	tokens := []string{"'", "\"", "\\", "$", "$$", "$t$", "E", "a", "_", "1", " ", "--", "\n"}
+	tokens := []string{"'", "\"", "\\", "$", "$$", "$t$", "E", "a", "_", "1", " ", "--", "\n", "\"a\"", "\"A\"", "'x'"}
 	maxLen := 5
 	if os.Getenv("VERIF_TIER") == "thorough" {
 		maxLen = 6
